@@ -238,3 +238,119 @@ def batch_text(prog):
     """The whole program as one file (same preamble as the session, except the loop command)."""
     pre, texts = render.render_forms(prog)
     return "\n".join(pre + ["%s: SI == 7@SI;" % KCONST] + [t for (_, _, t) in texts]) + "\n"
+
+
+# ---------------------------------------------------------------------------------------------------------
+# reading what the loop printed
+
+import re
+
+_TIMING = re.compile(r"^\s+Comp: \d+ msec, Interp: \d+ msec\s*$")
+_GROUP1 = re.compile(r"#1 \((Error|Fatal Error|Warning|Remark|Note)\)")
+_ERR = re.compile(r"\((Fatal )?Error\)")
+
+
+def loop_tokens(stdout):
+    """Project the loop's standard output on what the property speaks about:
+       ("M", line)  a line printed by the program (marker prefix), in order
+       ("G",)       one group of diagnostics with at least one error = one rejected step
+       ("T",)       the loop's own `step evaluated' line (timings), when it prints them
+    Only the part between the READY and END sentinels is returned, plus flags."""
+    toks = []
+    flags = {"ready": False, "end": False, "bad": False, "fault": False, "timing": False}
+    group_open = False     # inside a diagnostic group
+    group_err = False
+
+    def close():
+        if flags["ready"] and not flags["end"] and group_open and group_err:
+            toks.append(("G",))
+    for line in stdout.split("\n"):
+        if "Program fault" in line or "Bug:" in line or "Unhandled Exception" in line:
+            flags["fault"] = True
+        if line.startswith(BADMARK):       # text that only an erroneous form could have printed
+            flags["bad"] = True
+        i = line.find(MARK.rstrip())
+        if i >= 0 and (line[i:].startswith(READY) or line[i:].startswith(END)):
+            close()
+            group_open = group_err = False
+            if line[i:].startswith(READY):
+                flags["ready"] = True
+                del toks[:]
+            else:
+                flags["end"] = True
+            continue
+        if not flags["ready"] or flags["end"]:
+            continue
+        if _TIMING.match(line):
+            close()
+            group_open = group_err = False
+            flags["timing"] = True
+            toks.append(("T",))
+            continue
+        if _GROUP1.search(line):
+            close()
+            group_open, group_err = True, False
+        if _ERR.search(line):
+            if not group_open:
+                group_open = True
+            group_err = True
+            continue
+        j = line.find(MARK)
+        if j >= 0:
+            close()
+            group_open = group_err = False
+            toks.append(("M", line[j:]))
+    close()
+    return toks, flags
+
+
+def expected_tokens(hist, out_atoms, with_timing=True):
+    """The same projection of what Repl.tla says the session prints for this history."""
+    toks = []
+    for n, it in enumerate(hist):
+        if it["k"] != "ok":
+            toks.append(("G",))
+            continue
+        nxt = None
+        for it2 in hist[n + 1:]:
+            if it2["k"] == "ok":
+                nxt = it2["o0"]
+                break
+        seg = out_atoms[it["o0"]:nxt] if nxt is not None else out_atoms[it["o0"]:]
+        text = render.expected_text(seg)
+        if text:
+            if not text.endswith("\n"):
+                raise ValueError("a form's output is not a sequence of whole lines")
+            for l in text[:-1].split("\n"):
+                toks.append(("M", l))
+        if with_timing:
+            toks.append(("T",))
+    return toks
+
+
+def history_shapes(prog, hist):
+    """Syntactic shape predicates of a history, used in known-finding keys."""
+    shapes = set()
+
+    def declares(it):
+        if it["k"] == "pre":
+            return bool(prog["forms"][it["j"] - 1]["defs"])
+        if it["k"] == "bad":
+            e = prog["cat"][it["j"] - 1]
+            return e["c"] in ("vartype", "rettype", "noexport")
+        return False
+
+    def presco(it):
+        return it["k"] == "bad" and prog["cat"][it["j"] - 1]["c"] in ("syntax", "macroerr")
+    for a, b in zip(hist, hist[1:]):
+        if a["k"] != "ok" and b["k"] != "ok":
+            shapes.add("two-rejected-adjacent")
+            if declares(a) and presco(b):
+                shapes.add("declaring-error-then-parse-error")
+    for it in hist:
+        if it["k"] == "bad":
+            e = prog["cat"][it["j"] - 1]
+            shapes.add("bad:" + e["c"] + ("+shadow" if e.get("sh") else ""))
+        elif it["k"] == "pre":
+            shapes.add("pre:" + ("def" if prog["forms"][it["j"] - 1]["defs"] else "stmt"))
+    return sorted(shapes)
